@@ -113,7 +113,11 @@ def cases(tier, cfg):
             for t in (("f32", "f64") if (tier == "thorough" or n in (1, 4, 9, 12)) else ("f32",)):
                 out.append(Case(f"C16/predicates[{t}|N={n}|fn=all_of,any_of]", f"c16::pred<{n},{CTYPE[t]}>(fx,0);", route="predicates.all_any", cost=0.4))
                 out.append(Case(f"C16/predicates[{t}|N={n}|fn=none_of]", f"c16::pred<{n},{CTYPE[t]}>(fx,1);", route="predicates.none_of", cost=0.4))
-    return out
+    seen, uniq = set(), []
+    for c in out:          # the size / shape lists overlap for the narrow vector widths: one case per identity
+        if c.id not in seen:
+            seen.add(c.id); uniq.append(c)
+    return uniq
 
 
 def bounds(tier):
